@@ -15,9 +15,11 @@
    implementation asks for exactly one byte per [read] call, so each reader is
    a byte-at-a-time state machine ([scan]).
 
-   The parser is a parameter: [parser st fed] says what `Parser::command_line`
+   The parser is a parameter: [parser sts fed] says what `Parser::command_line`
    does when the lines [fed] (in order; [[]] stands for the end of input) are
-   all it has been given since the lexer was last flushed. *)
+   all the lexer has been given since it was last flushed, and [sts] are the
+   parser-relevant shell states of the calls made on them (the last one is
+   the current call's). *)
 From Yv Require Import Common.Base.
 Local Open Scope N_scope.
 
@@ -33,10 +35,11 @@ Inductive cmd :=
 | CStatus (n : N)                       (* true, false, unknown utility (127) *)
 | CProbe (args : list str)              (* probe ARGS: records args, $?, offset *)
 | CShow (v : str)                       (* show V: records the value of $V *)
-| CRead (raw : bool) (v : str)          (* read [-r] V *)
+| CRead (raw : bool) (d : N) (v : str)  (* read [-r] [-d D] V; d = delimiter byte *)
 | CSlurp                                (* slurp: reads standard input to its end *)
 | CHere (content : str)                 (* hdoc <<E ... : records the here-document *)
 | CAlias (name value : str)             (* alias name=value *)
+| CUnalias (name : str)                 (* unalias name *)
 | CPortable (on : bool)                 (* set -o/+o portable *)
 | CExit (n : option N)                  (* exit [n] *)
 | CSeq (a b : cmd)
@@ -52,7 +55,10 @@ Record pstate := mkP { p_aliases : list (str * str); p_portable : bool }.
 
 Inductive pres :=
 | PNeedMore                 (* wants another line *)
-| PComplete (c : cmd)       (* Ok(Some(list)) *)
+| PComplete (c : cmd) (pend : bool)
+                            (* Ok(Some(list)); pend = Lexer::pending() afterwards:
+                               text is left in the line buffer (an alias whose
+                               value contains a newline was substituted) *)
 | PError                    (* Err(syntax error) *)
 | PEnd                      (* Ok(None) *)
 | PUnknown.                 (* not in the table (run-time instantiation only) *)
@@ -96,7 +102,17 @@ Fixpoint get_var (n : str) (l : list (str * str)) : str :=
   | (n', v') :: l' => if str_eqb n n' then v' else get_var n l'
   end.
 
-Definition is_blank (c : N) : bool := N.eqb c 32 || N.eqb c 9.
+Fixpoint del_alias (n : str) (l : list (str * str)) : list (str * str) :=
+  match l with
+  | [] => []
+  | (n', v') :: l' => if str_eqb n n' then l' else (n', v') :: del_alias n l'
+  end.
+
+Definition has_alias (n : str) (l : list (str * str)) : bool :=
+  existsb (fun p => str_eqb n (fst p)) l.
+
+(* default IFS white space *)
+Definition is_blank (c : N) : bool := N.eqb c 32 || N.eqb c 9 || N.eqb c 10.
 
 (* what `read` assigns to a single variable: unquoted leading and trailing
    blanks removed (default IFS), quoting removed *)
@@ -155,22 +171,25 @@ Definition nl_step (acc : list N) (b : N) : list N * bool := (acc ++ [b], N.eqb 
 Definition next_line (d : dev) : line * dev :=
   let '(l, _, d') := scan nl_step [] d in (l, d').
 
-(* read built-in, yash-builtin/src/read/input.rs [read] with delimiter
-   newline; state: characters so far (value, quoted), "after a backslash",
-   bytes consumed. *)
-Definition read_step (raw : bool) (s : list (N * bool) * bool * N) (b : N)
+(* read built-in, yash-builtin/src/read/input.rs [read] with delimiter [d];
+   state: characters so far (value, quoted), "after a backslash", bytes
+   consumed.  The arms are in the order of the Rust match: the delimiter is
+   tested before the backslash (so with delimiter = backslash no escape is
+   recognised); after a backslash the next character is taken literally, even
+   the delimiter, except that backslash-newline is a line continuation. *)
+Definition read_step (raw : bool) (d : N) (s : list (N * bool) * bool * N) (b : N)
   : (list (N * bool) * bool * N) * bool :=
   let '(acc, esc, n) := s in
   if esc then
     if N.eqb b NL then ((acc, false, n + 1), false)           (* line continuation *)
     else ((acc ++ [(b, true)], false, n + 1), false)
-  else if N.eqb b NL then ((acc, false, n + 1), true)
+  else if N.eqb b d then ((acc, false, n + 1), true)
   else if negb raw && N.eqb b BSL then ((acc, true, n + 1), false)
   else ((acc ++ [(b, false)], false, n + 1), false).
 
-(* characters, newline found, rest of the descriptor, bytes consumed *)
-Definition read_text (raw : bool) (d : dev) : list (N * bool) * bool * dev * N :=
-  let '((acc, _, n), found, d') := scan (read_step raw) ([], false, 0) d in
+(* characters, delimiter found, rest of the descriptor, bytes consumed *)
+Definition read_text (raw : bool) (d : N) (dv : dev) : list (N * bool) * bool * dev * N :=
+  let '((acc, _, n), found, d') := scan (read_step raw d) ([], false, 0) dv in
   (acc, found, d', n).
 
 Definition slurp_step (acc : list N) (b : N) : list N * bool := (acc ++ [b], false).
@@ -185,7 +204,7 @@ Record input_ops (I SRC : Type) := mkOps {
   (* script source, standard input -> line ([] = end), new source, new
      standard input, bytes taken from standard input *)
   op_pull : SRC -> I -> line * SRC * I * N;
-  op_read : bool -> I -> list (N * bool) * bool * I * N;
+  op_read : bool -> N -> I -> list (N * bool) * bool * I * N;
   op_slurp : I -> str * I * N
 }.
 Arguments op_pull {I SRC}.
@@ -213,7 +232,10 @@ Inductive ftag := FEnd | FSyntax | FExit | FStuck | FUnknown | FOutOfFuel.
 Record final := mkFinal { f_tag : ftag; f_status : N; f_off : N; f_evs : list event }.
 
 Section Machine.
-  Context {I SRC : Type} (ops : input_ops I SRC) (parser : pstate -> list line -> pres).
+  (* [parser sts fed]: sts = the parser states (aliases, options) of the
+     command_line calls made since the lexer was last flushed, the current
+     one last; fed = the lines pulled since then. *)
+  Context {I SRC : Type} (ops : input_ops I SRC) (parser : list pstate -> list line -> pres).
 
   Record xstate := mkX { x_sh : sh; x_in : I; x_off : N; x_evs : list event }.
 
@@ -230,8 +252,8 @@ Section Machine.
     | CStatus n => (with_status n x, false)
     | CProbe args => (with_status 0 (emit 0 args (x_off x) x), false)
     | CShow v => (with_status 0 (emit 1 [get_var v (s_vars (x_sh x))] (x_off x) x), false)
-    | CRead raw v =>
-        let '(cs, found, i', n) := op_read ops raw (x_in x) in
+    | CRead raw d v =>
+        let '(cs, found, i', n) := op_read ops raw d (x_in x) in
         let s := x_sh x in
         (mkX (mkSh (s_ps s) (set_var v (read_value cs) (s_vars s)) (if found then 0 else 1))
              i' (x_off x + n) (x_evs x), false)
@@ -243,6 +265,11 @@ Section Machine.
     | CAlias n v =>
         let s := x_sh x in
         (mkX (mkSh (mkP (set_alias n v (p_aliases (s_ps s))) (p_portable (s_ps s))) (s_vars s) 0)
+             (x_in x) (x_off x) (x_evs x), false)
+    | CUnalias n =>
+        let s := x_sh x in
+        (mkX (mkSh (mkP (del_alias n (p_aliases (s_ps s))) (p_portable (s_ps s))) (s_vars s)
+                   (if has_alias n (p_aliases (s_ps s)) then 0 else 1))
              (x_in x) (x_off x) (x_evs x), false)
     | CPortable b =>
         let s := x_sh x in
@@ -271,32 +298,48 @@ Section Machine.
     end.
 
   (* The state of the read-eval loop between two iterations.  [m_eof] is
-     LexerCore's InputState::EndOfInput; the line buffer itself is empty here
-     (flushed: a command line always ends at the end of a pulled line). *)
-  Record mstate := mkM { m_x : xstate; m_src : SRC; m_eof : bool }.
+     LexerCore's InputState::EndOfInput.  [m_pend] is Lexer::pending(): when
+     true the loop does not flush the line buffer, [m_fed] are the lines
+     pulled since the last flush and [m_hist] the parser states of the
+     command_line calls made on them; otherwise both are empty. *)
+  Record mstate := mkM { m_x : xstate; m_src : SRC; m_eof : bool;
+                         m_pend : bool; m_fed : list line; m_hist : list pstate }.
 
   Inductive phase := PhDone (r : pres) | PhStuck | PhOutOfFuel.
 
   (* Parser::command_line seen from the line buffer: whenever the parser needs
      a character and the buffer is exhausted, LexerCore::peek_char pulls one
      line (or reports the end of input again, without reading, once it has
-     been seen). *)
-  Fixpoint pull_loop (fuel : nat) (st : pstate) (fed : list line)
-      (src : SRC) (inp : I) (off : N) (eof : bool) : phase * (SRC * I * N * bool) :=
+     been seen).  Returns the lines in the buffer afterwards as well. *)
+  Fixpoint pull_loop (fuel : nat) (sts : list pstate) (fed : list line)
+      (src : SRC) (inp : I) (off : N) (eof : bool)
+      : phase * (list line * SRC * I * N * bool) :=
     match fuel with
-    | O => (PhOutOfFuel, (src, inp, off, eof))
+    | O => (PhOutOfFuel, (fed, src, inp, off, eof))
     | S f =>
         let '(ln, src', inp', n) :=
           if eof then ([], src, inp, 0%N) else op_pull ops src inp in
         let eof' := eof || match ln with [] => true | _ => false end in
         let fed' := fed ++ [ln] in
-        match parser st fed' with
+        match parser sts fed' with
         | PNeedMore =>
-            if eof' then (PhStuck, (src', inp', off + n, eof'))
-            else pull_loop f st fed' src' inp' (off + n) eof'
-        | r => (PhDone r, (src', inp', off + n, eof'))
+            if eof' then (PhStuck, (fed', src', inp', off + n, eof'))
+            else pull_loop f sts fed' src' inp' (off + n) eof'
+        | r => (PhDone r, (fed', src', inp', off + n, eof'))
         end
     end.
+
+  (* With text pending in the buffer the parser is first run on what is
+     there; it pulls only if that is not enough. *)
+  Definition parse_phase (pf : nat) (sts : list pstate) (pend : bool) (fed : list line)
+      (src : SRC) (inp : I) (off : N) (eof : bool)
+      : phase * (list line * SRC * I * N * bool) :=
+    if pend then
+      match parser sts fed with
+      | PNeedMore => pull_loop pf sts fed src inp off eof
+      | r => (PhDone r, (fed, src, inp, off, eof))
+      end
+    else pull_loop pf sts [] src inp off eof.
 
   Definition finish (t : ftag) (status : N) (x : xstate) : final :=
     mkFinal t status (x_off x) (x_evs x).
@@ -304,14 +347,16 @@ Section Machine.
   (* one iteration of read_eval_loop_impl *)
   Definition iter (pf : nat) (m : mstate) : mstate + final :=
     let x := m_x m in
-    (* lexer.flush(); lexer.set_mode(options); aliases(env) *)
-    let '(ph, (src', inp', off', eof')) :=
-      pull_loop pf (s_ps (x_sh x)) [] (m_src m) (x_in x) (x_off x) (m_eof m) in
+    (* if !lexer.pending() { lexer.flush() }; lexer.set_mode(options); aliases(env) *)
+    let sts := (if m_pend m then m_hist m else []) ++ [s_ps (x_sh x)] in
+    let '(ph, (fed', src', inp', off', eof')) :=
+      parse_phase pf sts (m_pend m) (m_fed m) (m_src m) (x_in x) (x_off x) (m_eof m) in
     let x' := mkX (x_sh x) inp' off' (x_evs x) in
     match ph with
-    | PhDone (PComplete c) =>
+    | PhDone (PComplete c pend) =>
         let (x2, exited) := exec c x' in
-        if exited then inr (finish FExit (x_status x2) x2) else inl (mkM x2 src' eof')
+        if exited then inr (finish FExit (x_status x2) x2)
+        else inl (mkM x2 src' eof' pend (if pend then fed' else []) (if pend then sts else []))
     | PhDone PEnd => inr (finish FEnd (x_status x') x')
     | PhDone PError => inr (finish FSyntax 2 x')
     | PhDone PUnknown => inr (finish FUnknown 0 x')
@@ -340,10 +385,10 @@ Section Machine.
     end.
 
   Definition init (src : SRC) (inp : I) : mstate :=
-    mkM (mkX (mkSh (mkP [] false) [] 0) inp 0 []) src false.
+    mkM (mkX (mkSh (mkP [] false) [] 0) inp 0 []) src false false [] [].
 
-  Definition run (fuel : nat) (src : SRC) (inp : I) : final :=
-    loop fuel fuel (init src inp).
+  Definition run (fuel pf : nat) (src : SRC) (inp : I) : final :=
+    loop fuel pf (init src inp).
 End Machine.
 
 Arguments mkX {I}.
@@ -355,8 +400,11 @@ Arguments mkM {I SRC}.
 Arguments m_x {I SRC}.
 Arguments m_src {I SRC}.
 Arguments m_eof {I SRC}.
+Arguments m_pend {I SRC}.
+Arguments m_fed {I SRC}.
+Arguments m_hist {I SRC}.
 
 (* The MODEL: the machine over chunked descriptors read byte by byte. *)
-Definition model_run (parser : pstate -> list line -> pres) (fuel : nat)
+Definition model_run (parser : list pstate -> list line -> pres) (fuel pf : nat)
     (src : source) (stdin : dev) : final :=
-  run byte_ops parser fuel src stdin.
+  run byte_ops parser fuel pf src stdin.
